@@ -17,6 +17,7 @@ plan('C10',
          Job(H, 'concurrent', 'plain', quick=60, thorough=600, shards=(2, 4), batch=15, case_timeout=300, weight=3),
          Job(H, 'sizes', 'plain', quick=2401, thorough=307201, shards=(4, 16), params=dict(stride=128, base=0), tparams=dict(stride=1), batch=1000, case_timeout=120),
          Job(H, 'sizes', 'asan', quick=132, thorough=6001, shards=(3, 8), params=dict(stride=1, base=15935), tparams=dict(stride=51), batch=66, case_timeout=120, tag='c10.sizes_asan'),
+         Job(H, 'sizes', 'plain', quick=4, thorough=32, shards=(2, 4), params=dict(stride=2097152, base=300001), tparams=dict(stride=262144), batch=4, case_timeout=200, tag='c10.sizes_big'),
          Job(H, 'ranges', 'plain', quick=44, thorough=300, shards=(4, 8), batch=11, case_timeout=200),
          Job(H, 'ranges', 'asan', quick=24, thorough=100, shards=(4, 8), batch=6, case_timeout=200),
          Job(H, 'stream', 'plain', quick=150, thorough=4000, shards=(2, 4), batch=75, case_timeout=120),
